@@ -167,6 +167,12 @@ def grouping(ctx) -> None:
                 arg = fv.def_expr(apps_[0].call.args[0], apps_[0].node)[0]
                 if isinstance(arg, ast.Subscript) and is_name(arg.slice, n.ast.target.id):
                     ok_order = True
+                # merged with the row sorting: the group of this key is unpacked at the top of the body and its sorted
+                # version is appended (C18.one-permutation checks that it is the same group, re-indexed)
+                unpacks = [m for m in (fv.cfg.nodes[i] for i in lbody) if m.kind == "stmt" and isinstance(m.ast, ast.Assign) and isinstance(m.ast.targets[0], ast.Tuple)
+                           and isinstance(m.ast.value, ast.Subscript) and is_name(m.ast.value.slice, n.ast.target.id) and not fv.controlling(m.id, within=lbody)]
+                if len(unpacks) == 1 and isinstance(arg, ast.Tuple) and len(arg.elts) == len(unpacks[0].ast.targets[0].elts):
+                    ok_order = True
     if not ok_order and not any_sort and any(isinstance(x, ast.Call) and call_fname(x) in ("sorted", "sort", "argsort", "lexsort") for n in fv.cfg.nodes if n.ast is not None for x in own_walk(n.ast)):
         ok_order = None if not any(isinstance(n.ast, ast.Assign) and isinstance(n.ast.value, ast.ListComp) for n in fv.cfg.nodes if n.kind == "stmt") else ok_order
     ctx.rep.check(ok_order, rule.replace("group-integrity", "order"), f"{f.qualname}/group-order", "groups are emitted for sorted(keys), every key once",
@@ -253,6 +259,14 @@ def sorting(ctx) -> None:
             src = it.args[0] if isinstance(it, ast.Call) and call_fname(it) == "enumerate" and it.args else it
             if isinstance(src, ast.Name):
                 target = (lp, src.id, trip)
+    if target is None:
+        # merged form:  for key in sorted(groups): a, b, c = groups[key]; ...; result.append(<sorted triple>)
+        for lp in [n for n in fv.cfg.nodes if n.kind == "for" and isinstance(n.ast.target, ast.Name)]:
+            lb = fv.cfg.loop_body[lp.id]
+            for m in (fv.cfg.nodes[i] for i in sorted(lb)):
+                if m.kind == "stmt" and isinstance(m.ast, ast.Assign) and isinstance(m.ast.targets[0], ast.Tuple) and len(m.ast.targets[0].elts) == 3 and all(isinstance(e, ast.Name) for e in m.ast.targets[0].elts) \
+                        and isinstance(m.ast.value, ast.Subscript) and isinstance(m.ast.value.value, ast.Name) and is_name(m.ast.value.slice, lp.ast.target.id) and not fv.controlling(m.id, within=lb):
+                    target = (lp, m.ast.value.value.id, m.ast.targets[0])
     if target is None:
         ctx.rep.refuted(rule, f"{f.qualname}/sorting-loop", "no loop over the column groups that unpacks (sources, destinations, volumes): rows within a column are not sorted", where=f.where())
         return
